@@ -201,6 +201,12 @@ private:
     //! Computing Sample Variances"
     double combine_variance(const Aggregate& other) const noexcept
     {
+        // if both are empty the last term below is 0 / 0 = NaN, which would
+        // poison every later add() and combination.
+        if (count_ == 0)
+            return other.nvar_;
+        if (other.count_ == 0)
+            return nvar_;
         double delta = mean_ - other.mean_;
         return nvar_ + other.nvar_ +
                (delta * delta) * (count_ * other.count_) /
